@@ -293,6 +293,9 @@ func registerExternals() {
 		return func(fr *frame, args []value) value {
 			p := fr.i.p
 			m := args[0].(*value)
+			if m == nil {
+				panic(runtimeError("invalid memory address or nil pointer dereference (lock of a nil mutex)"))
+			}
 			ls := p.locks[m]
 			if ls == nil {
 				ls = &lockState{}
@@ -315,6 +318,9 @@ func registerExternals() {
 		return func(fr *frame, args []value) value {
 			p := fr.i.p
 			m := args[0].(*value)
+			if m == nil {
+				panic(runtimeError("invalid memory address or nil pointer dereference (unlock of a nil mutex)"))
+			}
 			ls := p.locks[m]
 			if ls == nil || (write && ls.w == 0) || (!write && ls.r == 0) {
 				panic(targetPanic{iface{types.Typ[types.String], "sync: unlock of unlocked mutex"}})
